@@ -107,7 +107,9 @@ Definition view (a : alloc) : aview :=
 (* what a concurrent run of the real Manager left behind (ConcObs): every AllocateNAT return,
    whether any DeallocateNAT was part of the scripts, the final GetAllocation table of the
    private IPs involved, and the log records in file order *)
-Record concobs := { co_rets : list aview; co_dealloc : bool; co_table : list aview; co_log : list logrec }.
+(* [co_strict]: one caller goroutine issued the calls in program order (only log flushing ran
+   beside it), so the log must be the exact event sequence: see NatSpec.strict_log *)
+Record concobs := { co_rets : list aview; co_dealloc : bool; co_strict : bool; co_table : list aview; co_log : list logrec }.
 
 Inductive op :=
 | AddIP (ip : Z)
